@@ -32,12 +32,16 @@ Record timeline := {
                             replaced": true = a successful write; false = a write attempt whose save
                             FAILED, or a read (list/get/info) - generation and file unchanged *)
   script : list upl;     (* the store's answers, by upload position; then [default_upl] *)
-  cancel : N             (* the instant the context is cancelled *)
+  cancel : N;            (* the instant the context is cancelled *)
+  read_faults : list (N * N)
+                         (* intervals [lo, hi] during which the database file cannot be read (moved aside,
+                            a directory in its place, EIO ...): os.ReadFile in doBackup fails *)
 }.
 
 (* one upload attempt: start instant, generation of the file read (= the body), whether the
    store acknowledged it, instant at which PutObject returned *)
-Record attempt := { a_t : N; a_gen : N; a_ok : bool; a_end : N; a_race : N }.
+Record attempt := { a_t : N; a_gen : N; a_ok : bool; a_end : N; a_race : N; a_sent : bool }.
+   (* a_sent = false: the file could not be read - doBackup failed before any request was made *)
    (* a_race: database writes made on the store's side while this request was handled *)
 
 (* one loop iteration: wake-up instant, generation read, the upload if one was made *)
@@ -54,27 +58,35 @@ Definition gen_at (ws : list N) (r t : N) : N := 1 + r + count_le t ws.
 
 (* one pass through the loop body at instant t: the upload if one is made, the instant the
    body is left, the new lastWriteGen, the store-side writes so far, the rest of the script *)
-Definition iter_step (ws : list N) (c t last r : N) (sc : list upl)
+Definition read_fails (rf : list (N * N)) (t : N) : bool :=
+  existsb (fun iv => (fst iv <=? t) && (t <=? snd iv)) rf.
+
+Definition iter_step (ws : list N) (rf : list (N * N)) (c t last r : N) (sc : list upl)
   : option attempt * N * N * N * list upl :=
   let g := gen_at ws r t in
   if g =? last then (None, t, last, r, sc)
+  else if read_fails rf t then
+    (* os.ReadFile fails: doBackup returns the error at once - nothing is sent (above all no empty
+       object), lastWriteGen stays, the store's script is not consumed; retried after the wait *)
+    (Some {| a_t := t; a_gen := g; a_ok := false; a_end := t; a_race := 0; a_sent := false |},
+     t, last, r, sc)
   else
     let e := hd default_upl sc in
     let d := N.min (u_dur e) upload_timeout in
     let aborted := c <? t + d in                                (* cancelled while in flight *)
     let ok := u_ok e && (u_dur e <=? upload_timeout) && negb aborted in
     let t1 := if aborted then c else t + d in
-    (Some {| a_t := t; a_gen := g; a_ok := ok; a_end := t1; a_race := u_race e |},
+    (Some {| a_t := t; a_gen := g; a_ok := ok; a_end := t1; a_race := u_race e; a_sent := true |},
      t1, (if ok then g else last), r + u_race e, tl sc).
 
-Fixpoint loop (fuel : nat) (ws : list N) (c : N) (t last r : N) (sc : list upl) : option (list iter * N) :=
+Fixpoint loop (fuel : nat) (ws : list N) (rf : list (N * N)) (c : N) (t last r : N) (sc : list upl) : option (list iter * N) :=
   match fuel with
   | O => None
   | S f =>
-      let '(up, t1, last', r', sc') := iter_step ws c t last r sc in
+      let '(up, t1, last', r', sc') := iter_step ws rf c t last r sc in
       let it := {| i_t := t; i_gen := gen_at ws r t; i_up := up |} in
       if c <=? t1 + period then Some ([it], c)                        (* ctx.Done wins the select *)
-      else match loop f ws c (t1 + period) last' r' sc' with
+      else match loop f ws rf c (t1 + period) last' r' sc' with
            | Some (its, x) => Some (it :: its, x)
            | None => None
            end
@@ -112,7 +124,7 @@ Definition open_gen : N := 1.
 
 (* the run of the backup task: its iterations and the instant it returns *)
 Definition backup_run (tl : timeline) : option (list iter * N) :=
-  loop (fuel_for (cancel tl)) (ok_writes tl) (cancel tl) 0 no_upload_yet 0 (script tl).
+  loop (fuel_for (cancel tl)) (ok_writes tl) (read_faults tl) (cancel tl) 0 no_upload_yet 0 (script tl).
 
 (* the generation covered by the last acknowledged upload (lastWriteGen), from the log *)
 Definition lastok_step (l : N) (it : iter) : N :=
@@ -126,6 +138,9 @@ Definition end_of (it : iter) : N := match i_up it with Some a => a_end a | None
 
 Definition attempts (its : list iter) : list attempt :=
   flat_map (fun it => match i_up it with Some a => [a] | None => [] end) its.
+
+(* the attempts that reached the object store *)
+Definition sent (its : list iter) : list attempt := filter a_sent (attempts its).
 
 (* counting attempts: acknowledged, not acknowledged, store-side writes *)
 Fixpoint n_acked (l : list attempt) : N :=
